@@ -23,6 +23,54 @@ const TYPES: [(&str, &[&str]); 5] = [
     ("D", &["DWORD", "DINT", "UDINT"]),
     ("L", &["LWORD", "LINT", "ULINT"]),
 ];
+const SHAPES: [&str; 9] = ["INT", "DINT", "BOOL", "TIME", "STRING", "ARRAY", "STRUCT", "ENUM", "REAL"];
+/// (type text, initialiser, bump statement) of a counter of the given shape
+fn shape_decl(shape: &str, n: &str) -> (String, String, String) {
+    match shape {
+        "INT" => ("INT".into(), " := INT#3".into(), format!("{n} := {n} + INT#1;")),
+        "DINT" => ("DINT".into(), " := DINT#100000".into(), format!("{n} := {n} + DINT#1;")),
+        "BOOL" => ("BOOL".into(), " := FALSE".into(), format!("{n} := NOT {n};")),
+        "TIME" => ("TIME".into(), " := T#5ms".into(), format!("{n} := ADD_TIME({n}, T#1ms);")),
+        "STRING" => ("STRING".into(), " := 'a'".into(), format!("{n} := CONCAT({n}, 'b');")),
+        "ARRAY" => ("ARRAY[0..2] OF INT".into(), "".into(), format!("{n}[0] := {n}[0] + INT#1; {n}[2] := {n}[2] + INT#2;")),
+        "STRUCT" => ("VPair".into(), "".into(), format!("{n}.x := {n}.x + INT#1; {n}.y := NOT {n}.y;")),
+        "ENUM" => ("VColor".into(), " := VColor#VRed".into(), format!("IF {n} = VColor#VRed THEN {n} := VColor#VGreen; ELSIF {n} = VColor#VGreen THEN {n} := VColor#VBlue; ELSE {n} := VColor#VRed; END_IF;")),
+        _ => ("REAL".into(), " := REAL#1.5".into(), format!("{n} := {n} + REAL#1.0;")),
+    }
+}
+/// Decode the number of bumps from a stored value; -1 when the value is not of the form the
+/// program can have produced.
+fn decode_count(shape: &str, v: &Value) -> i64 {
+    match (shape, v) {
+        ("INT", Value::Int(x)) => *x as i64 - 3,
+        ("INT", Value::DInt(x)) => *x as i64 - 3,
+        ("DINT", Value::DInt(x)) => *x as i64 - 100000,
+        ("BOOL", Value::Bool(b)) => *b as i64,
+        ("TIME", Value::Time(d)) | ("TIME", Value::LTime(d)) => d.as_nanos() / 1_000_000 - 5,
+        ("STRING", Value::String(s)) => if s.starts_with('a') && s[1..].bytes().all(|b| b == b'b') { s.len() as i64 - 1 } else { -1 },
+        ("ARRAY", Value::Array(a)) => {
+            let e: Vec<i64> = a.elements.iter().map(|x| match x { Value::Int(i) => *i as i64, Value::DInt(i) => *i as i64, _ => -99 }).collect();
+            if e.len() == 3 && e[1] == 0 && e[2] == 2 * e[0] { e[0] } else { -1 }
+        }
+        ("STRUCT", Value::Struct(s)) => {
+            let x = match s.fields.get("x") { Some(Value::Int(i)) => *i as i64, Some(Value::DInt(i)) => *i as i64, _ => return -1 };
+            let y = matches!(s.fields.get("y"), Some(Value::Bool(true)));
+            if y == (x % 2 == 1) { x } else { -1 }
+        }
+        ("ENUM", Value::Enum(e)) => e.numeric_value as i64,
+        ("REAL", Value::Real(r)) => { let c = *r - 1.5; if c.fract() == 0.0 { c as i64 } else { -1 } }
+        _ => -1,
+    }
+}
+fn shape_tag(shape: &str, v: &Value) -> String {
+    // the tag the specification expects is the shape name itself
+    match (shape, tag(v)) {
+        (s, t) if s == t => s.to_string(),
+        ("TIME", "TIME") => "TIME".into(),
+        (_, t) => t.to_string(),
+    }
+}
+
 fn nbytes(sz: &str) -> usize {
     match sz {
         "X" | "B" => 1,
@@ -53,14 +101,15 @@ pub fn gen(args: &[String]) -> i32 {
     let out = arg(args, "--out").expect("--out");
     let mut rng = StdRng::seed_from_u64(seed ^ 0x5eed_c0de);
     let mut o = Out::create(out);
+    let always_restart = arg_u64(args, "--restarts", 0) == 1;
     for _ in 0..runs {
-        o.line(&gen_script(&mut rng));
+        o.line(&gen_script(&mut rng, always_restart));
     }
     o.flush();
     0
 }
 
-fn gen_script(rng: &mut StdRng) -> J {
+fn gen_script(rng: &mut StdRng, always_restart: bool) -> J {
     let singles = ["s1", "s2"];
     let nt = rng.gen_range(0..=4usize);
     let np = rng.gen_range(1..=4usize);
@@ -132,8 +181,28 @@ fn gen_script(rng: &mut StdRng) -> J {
         safe.push(json!({"addr": {"area": "Q", "size": sz, "byte": b, "bit": if sz == "X" { bit } else { 0 }}, "val": val}));
     }
     let drivers = json!([{"off": 0, "len": IMG / 2}, {"off": IMG / 2, "len": IMG / 2}]);
+    // C09: counters of every qualifier x scope x type shape, bumped by their owner program
+    let restarts = always_restart || rng.gen_bool(0.4);
+    let mut counters = Vec::new();
+    for j in 0..np {
+        counters.push(json!({"name": format!("cnt{j}"), "owner": j + 1, "scope": "program", "qual": "none", "shape": "INT"}));
+    }
+    if restarts {
+        for c in 0..rng.gen_range(2..=6) {
+            let scope = if rng.gen_bool(0.4) { "global" } else { "program" };
+            let qual = ["none", "retain", "retain", "nonretain", "persistent"][rng.gen_range(0..5)];
+            let shape = SHAPES[rng.gen_range(0..SHAPES.len())];
+            counters.push(json!({"name": format!("k{c}"), "owner": rng.gen_range(1..=np), "scope": scope, "qual": qual, "shape": shape}));
+        }
+    }
+    let mut sinit = Map::new();
+    for s in singles {
+        sinit.insert(s.to_string(), json!(restarts && rng.gen_bool(0.3)));
+    }
+    let access: Vec<usize> = (0..np).filter(|_| restarts && rng.gen_bool(0.5)).collect();
     let cfg = json!({"tasks": tasks, "programs": programs, "bindings": bindings, "drivers": drivers,
-                     "policy": policy, "wd": wd, "safe": safe, "singles": singles, "imgLen": IMG});
+                     "policy": policy, "wd": wd, "safe": safe, "singles": singles, "imgLen": IMG,
+                     "counters": counters, "sinit": sinit, "access": access, "vars0": vars0});
     let mut steps = Vec::new();
     let ncyc = rng.gen_range(3..10);
     let faulty = rng.gen_bool(0.45);
@@ -174,6 +243,17 @@ fn gen_script(rng: &mut StdRng) -> J {
             steps.push(json!({"a": "SimFault"}));
         }
         steps.push(json!({"a": "Cycle"}));
+        if restarts && rng.gen_bool(0.25) {
+            match rng.gen_range(0..5) {
+                0 | 1 => steps.push(json!({"a": "Restart", "mode": "warm"})),
+                2 | 3 => steps.push(json!({"a": "Restart", "mode": "cold"})),
+                _ => steps.push(json!({"a": "PowerCycle"})),
+            }
+        }
+        if !access.is_empty() && rng.gen_bool(0.2) {
+            let j = access[rng.gen_range(0..access.len())];
+            steps.push(json!({"a": "SetAccess", "name": format!("cnt{j}"), "val": rng.gen_range(0..50)}));
+        }
         if rng.gen_bool(0.2) {
             let sz = ["X", "B", "W", "D", "L"][rng.gen_range(0..5)];
             let n = nbytes(sz);
@@ -182,14 +262,15 @@ fn gen_script(rng: &mut StdRng) -> J {
             steps.push(json!({"a": "DirectRead", "addr": {"area": area, "size": sz, "byte": b, "bit": if sz == "X" { bit } else { 0 }}}));
         }
     }
-    json!({"cfg": cfg, "vars0": vars0, "steps": steps, "dbg": rng.gen_bool(0.5)})
+    json!({"cfg": cfg, "steps": steps, "dbg": rng.gen_bool(0.5)})
 }
 
 // ------------------------------------------------------------------ rendering
 pub fn render_source(cfg: &J) -> String {
     let mut src = String::from("CONFIGURATION C\nVAR_GLOBAL\n");
     for s in cfg["singles"].as_array().unwrap() {
-        src.push_str(&format!(" {} : BOOL := FALSE;\n", s.as_str().unwrap()));
+        let init = cfg["sinit"][s.as_str().unwrap()].as_bool().unwrap_or(false);
+        src.push_str(&format!(" {} : BOOL := {};\n", s.as_str().unwrap(), if init { "TRUE" } else { "FALSE" }));
     }
     src.push_str(" elog : ARRAY[0..31] OF INT;\n lgn : INT := INT#0;\n inj : INT := INT#0;\n zero : INT := INT#0;\n");
     let bindings = cfg["bindings"].as_array().unwrap();
@@ -199,6 +280,12 @@ pub fn render_source(cfg: &J) -> String {
             b["ty"].as_str().unwrap()));
     }
     src.push_str("END_VAR\n");
+    let counters: Vec<J> = cfg["counters"].as_array().cloned().unwrap_or_default();
+    let qual_kw = |q: &str| match q { "retain" => " RETAIN", "nonretain" => " NON_RETAIN", "persistent" => " PERSISTENT", _ => "" };
+    for c in counters.iter().filter(|c| c["scope"] == "global") {
+        let (ty, init, _) = shape_decl(c["shape"].as_str().unwrap(), c["name"].as_str().unwrap());
+        src.push_str(&format!("VAR_GLOBAL{}\n {} : {}{};\nEND_VAR\n", qual_kw(c["qual"].as_str().unwrap()), c["name"].as_str().unwrap(), ty, init));
+    }
     for t in cfg["tasks"].as_array().unwrap() {
         let mut parts = Vec::new();
         if t["single"] != "" {
@@ -217,7 +304,21 @@ pub fn render_source(cfg: &J) -> String {
             src.push_str(&format!("PROGRAM P{j} WITH {task} : PT{j};\n"));
         }
     }
+    let access: Vec<u64> = cfg["access"].as_array().map(|a| a.iter().map(|x| x.as_u64().unwrap()).collect()).unwrap_or_default();
+    if !access.is_empty() {
+        src.push_str("VAR_ACCESS\n");
+        for j in &access {
+            src.push_str(&format!(" Acc{j} : P{j}.cnt{j} : INT READ_WRITE;\n"));
+        }
+        src.push_str("END_VAR\n");
+    }
     src.push_str("END_CONFIGURATION\n");
+    if counters.iter().any(|c| c["shape"] == "STRUCT") {
+        src = format!("TYPE VPair : STRUCT x : INT; y : BOOL; END_STRUCT END_TYPE\n{src}");
+    }
+    if counters.iter().any(|c| c["shape"] == "ENUM") {
+        src = format!("TYPE VColor : (VRed, VGreen, VBlue); END_TYPE\n{src}");
+    }
     let ty_of = |var: &str| -> String {
         bindings.iter().find(|b| b["var"] == var).unwrap()["ty"].as_str().unwrap().to_string()
     };
@@ -233,7 +334,19 @@ pub fn render_source(cfg: &J) -> String {
             }
         }
         let copies = p["copies"].as_array().unwrap();
-        let mut body = format!("elog[lgn] := INT#{j}; lgn := lgn + INT#1; cnt{j} := cnt{j} + INT#1;\n");
+        let mut body = format!("elog[lgn] := INT#{j}; lgn := lgn + INT#1;\n");
+        let mut qdecls = String::new();
+        for c in counters.iter().filter(|c| c["owner"] == json!(j + 1)) {
+            let n = c["name"].as_str().unwrap();
+            let (ty, init, bump) = shape_decl(c["shape"].as_str().unwrap(), n);
+            if c["scope"] == "global" {
+                ext.push_str(&format!(" {n} : {ty};"));
+            } else {
+                qdecls.push_str(&format!("VAR{}\n  {n} : {ty}{init};\nEND_VAR\n", qual_kw(c["qual"].as_str().unwrap())));
+            }
+            body.push_str(&bump);
+            body.push('\n');
+        }
         for (k, c) in copies.iter().enumerate() {
             let (from, to) = (c["from"].as_str().unwrap(), c["to"].as_str().unwrap());
             let ty = ty_of(from);
@@ -258,7 +371,7 @@ pub fn render_source(cfg: &J) -> String {
         }
         body.push_str(&format!("IF inj = INT#{} THEN zz := INT#1 / zero; END_IF;\n", j * 100 + copies.len() + 1));
         src.push_str(&format!(
-            "PROGRAM PT{j}\nVAR_EXTERNAL elog : ARRAY[0..31] OF INT; lgn : INT; inj : INT; zero : INT;{ext} END_VAR\nVAR\n{decls}  zz : INT;\n  cnt{j} : INT := INT#0;\nEND_VAR\n{body}END_PROGRAM\n"
+            "PROGRAM PT{j}\nVAR_EXTERNAL elog : ARRAY[0..31] OF INT; lgn : INT; inj : INT; zero : INT;{ext} END_VAR\nVAR\n{decls}  zz : INT;\nEND_VAR\n{qdecls}{body}END_PROGRAM\n"
         ));
     }
     for ty in helper_types {
@@ -357,22 +470,12 @@ fn images(h: &TestHarness) -> J {
     json!({"I": io.inputs(), "Q": io.outputs(), "M": io.memory()})
 }
 
-fn run_script(sc: &J, o: &mut Out) -> bool {
-    let cfg = &sc["cfg"];
-    let src = render_source(cfg);
-    let mut h = match TestHarness::from_source(&src) {
-        Ok(h) => h,
-        Err(e) => {
-            eprintln!("COMPILE {e}\n{src}");
-            return false;
-        }
-    };
-    let sh = Arc::new(Mutex::new(Shared { log: vec![], src: vec![], fail: (0, String::new()) }));
+fn setup(cfg: &J, src: &str, sh: &Arc<Mutex<Shared>>, retain_path: &std::path::Path) -> Result<TestHarness, String> {
+    let mut h = TestHarness::from_source(src).map_err(|e| e.to_string())?;
     let img = cfg["imgLen"].as_u64().unwrap() as usize;
     h.runtime_mut().io_mut().resize(img, img, img);
     for (d, dr) in cfg["drivers"].as_array().unwrap().iter().enumerate() {
         let (off, len) = (dr["off"].as_u64().unwrap() as usize, dr["len"].as_u64().unwrap() as usize);
-        sh.lock().unwrap().src.push(vec![0; len]);
         h.runtime_mut().add_io_driver(format!("d{}", d + 1), Box::new(Drv { id: d + 1, off, len, sh: sh.clone() }));
     }
     h.runtime_mut().set_fault_policy(policy(cfg["policy"].as_str().unwrap()));
@@ -383,10 +486,67 @@ fn run_script(sc: &J, o: &mut Out) -> bool {
         safe_rt.outputs.push((io_addr(&e["addr"]), io_value(e["addr"]["size"].as_str().unwrap(), &b)));
     }
     h.runtime_mut().set_io_safe_state(safe_rt);
-    let dbg = if sc["dbg"].as_bool().unwrap_or(false) { Some(h.runtime_mut().enable_debug()) } else { None };
-    o.line(&json!({"a": "Reset", "cfg": cfg, "vars0": sc["vars0"], "src": src}));
+    // a retain store that is only written when the script says so (no periodic save)
+    h.runtime_mut().set_retain_store(Some(Box::new(trust_runtime::retain::FileRetainStore::new(retain_path))), None);
+    Ok(h)
+}
+
+/// Projection shared by Cycle / Restart / PowerCycle / SetAccess events.
+fn project(h: &TestHarness, cfg: &J) -> J {
     let tasks = cfg["tasks"].as_array().unwrap();
-    let np = cfg["programs"].as_array().unwrap().len();
+    let over: Vec<u64> = tasks.iter().map(|t| h.runtime().task_overrun_count(t["name"].as_str().unwrap()).unwrap_or(0)).collect();
+    let mut vars = Map::new();
+    let mut tags = Map::new();
+    for k in cfg["vars0"].as_object().unwrap().keys() {
+        let v = h.get_output(k).unwrap_or(Value::Null);
+        vars.insert(k.clone(), json!(le_bytes(&v).unwrap_or_default()));
+        tags.insert(k.clone(), json!(tag(&v)));
+    }
+    let mut ctr = Map::new();
+    let mut ctags = Map::new();
+    for c in cfg["counters"].as_array().unwrap() {
+        let (n, shape) = (c["name"].as_str().unwrap(), c["shape"].as_str().unwrap());
+        let v = h.get_output(n).unwrap_or(Value::Null);
+        ctr.insert(n.to_string(), json!(decode_count(shape, &v)));
+        ctags.insert(n.to_string(), json!(shape_tag(shape, &v)));
+    }
+    let mut acc = Map::new();
+    for j in cfg["access"].as_array().unwrap() {
+        let v = h.get_access(&format!("Acc{j}")).unwrap_or(Value::Null);
+        acc.insert(format!("cnt{j}"), json!(decode_count("INT", &v)));
+    }
+    json!({"over": over, "img": images(h), "vars": vars, "tags": tags, "ctr": ctr, "ctags": ctags, "acc": acc,
+           "faulted": h.runtime().faulted(), "frames": h.runtime().storage().frames().len(),
+           "now": h.runtime().current_time().as_nanos() / 1_000_000})
+}
+fn merge(mut a: J, b: J) -> J {
+    for (k, v) in b.as_object().unwrap() {
+        a[k] = v.clone();
+    }
+    a
+}
+
+fn run_script(sc: &J, o: &mut Out) -> bool {
+    let cfg = &sc["cfg"];
+    let src = render_source(cfg);
+    let sh = Arc::new(Mutex::new(Shared { log: vec![], src: vec![], fail: (0, String::new()) }));
+    for dr in cfg["drivers"].as_array().unwrap() {
+        sh.lock().unwrap().src.push(vec![0; dr["len"].as_u64().unwrap() as usize]);
+    }
+    let dir = std::env::temp_dir().join(format!("tpv-retain-{}", std::process::id()));
+    let _ = std::fs::create_dir_all(&dir);
+    let retain_path = dir.join("retain.bin");
+    let _ = std::fs::remove_file(&retain_path);
+    let mut h = match setup(cfg, &src, &sh, &retain_path) {
+        Ok(h) => h,
+        Err(e) => {
+            eprintln!("COMPILE {e}\n{src}");
+            return false;
+        }
+    };
+    let want_dbg = sc["dbg"].as_bool().unwrap_or(false);
+    let mut dbg = if want_dbg { Some(h.runtime_mut().enable_debug()) } else { None };
+    o.line(&json!({"a": "Reset", "cfg": cfg, "src": src}));
     for st in sc["steps"].as_array().unwrap() {
         match st["a"].as_str().unwrap() {
             "Advance" => {
@@ -429,6 +589,30 @@ fn run_script(sc: &J, o: &mut Out) -> bool {
                 let v = h.runtime().io().read(&io_addr(&st["addr"])).unwrap();
                 o.line(&json!({"a": "DirectRead", "addr": st["addr"], "val": le_bytes(&v).unwrap()}));
             }
+            "Restart" => {
+                let mode = if st["mode"] == "warm" { trust_runtime::RestartMode::Warm } else { trust_runtime::RestartMode::Cold };
+                let res = h.restart(mode);
+                o.line(&merge(json!({"a": "Restart", "mode": st["mode"], "err": res.err().map(|e| format!("{e:?}")).unwrap_or_default()}), project(&h, cfg)));
+            }
+            "PowerCycle" => {
+                // save, new process (a newly built runtime), load
+                let saved = h.runtime_mut().save_retain_store();
+                let mut nh = match setup(cfg, &src, &sh, &retain_path) {
+                    Ok(h) => h,
+                    Err(e) => panic!("rebuild failed: {e}"),
+                };
+                let loaded = nh.runtime_mut().load_retain_store();
+                h = nh;
+                dbg = if want_dbg { Some(h.runtime_mut().enable_debug()) } else { None };
+                let err = format!("{}{}", saved.err().map(|e| format!("save:{e:?}")).unwrap_or_default(), loaded.err().map(|e| format!("load:{e:?}")).unwrap_or_default());
+                o.line(&merge(json!({"a": "PowerCycle", "err": err}), project(&h, cfg)));
+            }
+            "SetAccess" => {
+                let name = st["name"].as_str().unwrap();
+                let j = &name[3..];
+                let res = h.set_access(&format!("Acc{j}"), Value::Int((st["val"].as_i64().unwrap() + 3) as i16));
+                o.line(&merge(json!({"a": "SetAccess", "name": name, "val": st["val"], "err": res.err().map(|e| format!("{e:?}")).unwrap_or_default()}), project(&h, cfg)));
+            }
             "Cycle" => {
                 h.set_input("lgn", Value::Int(0));
                 sh.lock().unwrap().log.clear();
@@ -445,6 +629,7 @@ fn run_script(sc: &J, o: &mut Out) -> bool {
                 };
                 let n = match h.get_output("lgn") {
                     Some(Value::Int(n)) => n as usize,
+                    Some(Value::DInt(n)) => n as usize,
                     o => panic!("lgn = {o:?}"),
                 };
                 let exec: Vec<String> = match h.get_output("elog") {
@@ -454,22 +639,8 @@ fn run_script(sc: &J, o: &mut Out) -> bool {
                     }).collect(),
                     _ => vec![],
                 };
-                let over: Vec<u64> = tasks.iter().map(|t| h.runtime().task_overrun_count(t["name"].as_str().unwrap()).unwrap()).collect();
-                let mut vars = Map::new();
-                let mut tags = Map::new();
-                for k in sc["vars0"].as_object().unwrap().keys() {
-                    let v = h.get_output(k).unwrap_or(Value::Null);
-                    vars.insert(k.clone(), json!(le_bytes(&v).unwrap_or_default()));
-                    tags.insert(k.clone(), json!(tag(&v)));
-                }
-                let cnt: Vec<i64> = (0..np).map(|j| match h.get_output(&format!("cnt{j}")) {
-                    Some(Value::Int(i)) => i as i64,
-                    Some(Value::DInt(i)) => i as i64,
-                    o => panic!("cnt = {o:?}"),
-                }).collect();
-                let mut ev = json!({"a": "Cycle", "res": res, "err": r.errors.first().map(|e| format!("{e:?}")).unwrap_or_default(), "exec": exec, "over": over,
-                    "img": images(&h), "vars": vars, "tags": tags, "cnt": cnt, "drv": sh.lock().unwrap().log.clone(),
-                    "faulted": h.runtime().faulted(), "frames": h.runtime().storage().frames().len()});
+                let mut ev = merge(json!({"a": "Cycle", "res": res, "err": r.errors.first().map(|e| format!("{e:?}")).unwrap_or_default(), "exec": exec,
+                    "drv": sh.lock().unwrap().log.clone()}), project(&h, cfg));
                 if let Some(d) = &dbg {
                     let started: Vec<String> = d.drain_runtime_events().into_iter().filter_map(|e| match e {
                         RuntimeEvent::TaskStart { name, .. } => Some(name.to_string()),
@@ -482,5 +653,6 @@ fn run_script(sc: &J, o: &mut Out) -> bool {
             other => panic!("unknown step {other}"),
         }
     }
+    let _ = std::fs::remove_dir_all(&dir);
     true
 }
